@@ -18,7 +18,7 @@ from vlib.engine import SubCheck, check, discard, Fail
 
 PROPERTY = "C10"
 RULE = ("Hypothesis: data tensors of order 2-4 (PARAFAC2: 2-4 slices), sides 2-4, classes signed normal / non-negative / "
-        "sparse signed / sparse non-negative / small ints / all-negative / exactly low CP rank (signed and non-negative); "
+        "sparse signed / sparse non-negative / small ints / all-negative / exactly low CP rank (signed and non-negative), each at data magnitude 1, 1e-4, 1e-8 or 1e4; "
         "rank 1-3 (also > side); init svd / random(seed) / entrywise non-negative user init (weights None, ones or positive; "
         "with fixed modes); n_iter_max 0-6 (PARAFAC2 up to 9 so that line-search iterations occur); tol 0 / 1e-8 / 1e-1; "
         "normalize_factors; masks (MU-CP); sparsity coefficients float / list (HALS, Tucker-HALS, core); nn_modes 'all' / "
@@ -30,6 +30,15 @@ ASSUMPTIONS = ["NumPy min / isfinite are correct", "Hypothesis generates what it
                "exact=True (50000 unbounded inner HALS sweeps) is not explored for cost reasons"]
 
 LIN = (np.linalg.LinAlgError,)
+# data magnitude class: the guarantee is scale-free, absolute thresholds inside the algorithms are not
+SCALES = [None, None, None, 1e-4, 1e-8, 1e4]
+
+
+def _draw_scale(draw, x):
+    sc = draw(st.sampled_from(SCALES))
+    if sc is not None:
+        x["xscale"] = sc
+    return sc
 
 
 # ----------------------------------------------------------------------------
@@ -39,6 +48,7 @@ LIN = (np.linalg.LinAlgError,)
 def _base(draw, min_order=2, max_order=4, max_iter=6, inits=("random", "user"), kinds=X.DATA_KINDS, max_side=4,
           cap_rank=False):
     x = draw(X.data(min_order, max_order, 2, max_side, kinds=kinds))
+    _draw_scale(draw, x)
     shape = x["s"]
     rank = draw(st.integers(1, 3))
     if cap_rank and rank > min(shape) and draw(st.integers(0, 3)) > 0:
@@ -64,7 +74,7 @@ def _init_arg(c):
 def _common_labels(c, x):
     neg, zf = X.data_class(x)
     lab = [f"order={x.ndim}", f"data={c['x']['kind']}", f"init={c['init']}", f"n_iter={c['n_iter']}",
-           f"rank_gt_side={c['rank'] > min(x.shape)}", f"normalize={c['normalize']}"]
+           f"rank_gt_side={c['rank'] > min(x.shape)}", f"normalize={c['normalize']}", f"scale={c['x'].get('xscale')}"]
     nt = neg or zf >= 0.3 or c["init"] == "user"
     return lab, nt
 
@@ -169,6 +179,7 @@ SIGNED_KINDS = ("normal", "sparse", "int", "allneg", "lowrank")
 @st.composite
 def _tucker_case(draw, inits, hals=False, alg=None, kinds=X.DATA_KINDS):
     x = draw(X.data(2, 4 if not hals else 3, 2, 4 if not hals else 3, kinds=kinds))
+    _draw_scale(draw, x)
     shape = x["s"]
     nd = len(shape)
     rk = draw(st.sampled_from(["int", "list"]))
@@ -215,7 +226,8 @@ def _check_tucker(res, x, c, clause):
     neg, zf = X.data_class(x)
     ranks = c["rank"] if isinstance(c["rank"], list) else [c["rank"]] * x.ndim
     lab = [f"order={x.ndim}", f"data={c['x']['kind']}", f"init={c['init']}", f"n_iter={c['n_iter']}",
-           f"rank_gt_side={any(r > s for r, s in zip(ranks, x.shape))}", f"normalize={c['normalize']}"]
+           f"rank_gt_side={any(r > s for r, s in zip(ranks, x.shape))}", f"normalize={c['normalize']}",
+           f"scale={c['x'].get('xscale')}"]
     return {"nontrivial": neg or zf >= 0.3 or c["init"] == "user", "labels": lab}
 
 
@@ -252,6 +264,7 @@ def o_tucker_hals(c):
 @st.composite
 def _constrained_case(draw, form, inits=("svd", "random", "user")):
     x = draw(X.data(3, 4, 2, 4))
+    _draw_scale(draw, x)
     shape = x["s"]
     nd = len(shape)
     rank = draw(st.integers(1, 3))
@@ -285,7 +298,7 @@ def o_constrained(c):
     _check_cp(res, x.shape, c["rank"], c["modes"], "nonneg/constrained_cp", weights=True)
     neg, zf = X.data_class(x)
     lab = [f"order={nd}", f"data={c['x']['kind']}", f"init={c['init']}", f"n_iter={c['n_iter']}",
-           f"nmodes={len(c['modes'])}/{nd}", f"fixed={bool(c.get('fixed'))}"]
+           f"nmodes={len(c['modes'])}/{nd}", f"fixed={bool(c.get('fixed'))}", f"scale={c['x'].get('xscale')}"]
     return {"nontrivial": neg or zf >= 0.3 or c["init"] == "user" or len(c["modes"]) < nd, "labels": lab}
 
 
@@ -308,7 +321,7 @@ def _p2_case(draw, iters, inits=("random", "svd", "user_p2", "user_cp"), ls_tol0
          "seed": draw(st.integers(0, 10 ** 6)), "n_iter": draw(st.integers(iters[0], iters[1])),
          "tol": draw(st.sampled_from([0, 1e-8, 1e-2])), "normalize": draw(st.booleans()),
          "nn": draw(st.sampled_from(NN_P2)), "linesearch": draw(st.booleans()),
-         "n_iter_parafac": draw(st.integers(1, 5))}
+         "n_iter_parafac": draw(st.integers(1, 5)), "xscale": draw(st.sampled_from(SCALES))}
     if init in ("user_p2", "user_cp"):
         c["uA"] = draw(gen.arr([n_slices, rank], kinds=("normal", "posint", "uniform")))
         c["uC"] = draw(gen.arr([K, rank], kinds=("normal", "posint", "uniform")))
@@ -352,6 +365,8 @@ def _p2_slices(c):
 
 def o_p2(c):
     slices = _p2_slices(c)
+    if c.get("xscale") is not None:
+        slices = [s * c["xscale"] for s in slices]
     if not any(np.any(s) for s in slices):
         discard("zero tensor")
     data = np.stack(slices) if c["as_array"] else [s.copy() for s in slices]
@@ -384,7 +399,7 @@ def o_p2(c):
     return {"nontrivial": True,
             "labels": [f"data={c['kind']}", f"init={c['init']}", f"n_iter={c['n_iter']}", f"nn={c['nn']}",
                        f"linesearch={c['linesearch']}", f"ls_reached={c['linesearch'] and c['n_iter'] >= 7}",
-                       f"normalize={c['normalize']}", f"neg_data={neg}"]}
+                       f"normalize={c['normalize']}", f"neg_data={neg}", f"scale={c.get('xscale')}"]}
 
 
 # ----------------------------------------------------------------------------
